@@ -7,6 +7,20 @@ PROPS = ['Props/C02.lean']
 PROP = 'C02'
 
 
+# minimised past failures, always run first (DESIGN §3.4)
+CORPUS = [
+    # F2 (recycled id(future) crosses results in a fail-fast ensemble): on a tree with commit b6a6afa
+    # reverted this exact case gives `request 3 received [(3,1), (1,2)]`
+    {"tree": {"k": "e", "ff": True, "ch": [
+        {"k": "w", "mark": 1, "bs": 0, "nw": 1, "pre": False, "pf": [], "cf": [1, 2], "bp": [], "wait": 0, "dur": [0, 0, 0, 0]},
+        {"k": "w", "mark": 2, "bs": 0, "nw": 2, "pre": False, "pf": [], "cf": [], "bp": [], "wait": 0, "dur": [1, 40, 40, 1]}]},
+     "callers": [{"kind": "call", "reqs": [{"r": 1, "delay": 0, "timeout": 1000000.0, "bp": False},
+                                           {"r": 2, "delay": 0, "timeout": 1000000.0, "bp": False},
+                                           {"r": 3, "delay": 0, "timeout": 1000000.0, "bp": False}]}],
+     "nreq": 3, "cap": 8, "adversarial_id": True, "chooser": ["random", 0.05], "seed": 805235840},
+]
+
+
 def keyfn(case, res, m):
     return f"{m['rule']}:{case['tree']['k']}"
 
@@ -123,7 +137,8 @@ def proc_sample(chk, prop, n):
 def run(chk, prop=PROP, props=PROPS, bias=''):
     chk.audit(props)
     n = 900 if chk.tier == "quick" else 30000
-    results = core.e1_flow(chk, 'scen_servlet', 'servlet', {prop}, gen(chk, bias), n, keyfn=keyfn)
+    results = core.e1_flow(chk, 'scen_servlet', 'servlet', {prop}, gen(chk, bias), n, keyfn=keyfn,
+                           corpus=CORPUS)
     dist = {}
     for case, res in results:
         k = case['tree']['k']
